@@ -100,6 +100,7 @@ type sched struct {
 	timers  timerHeap
 	tseq    int
 	objseq  int
+	steps   int
 
 	prefix  []uint8
 	res     *Result
@@ -199,7 +200,7 @@ func Run(cfg Config, prefix []uint8, body func()) *Result {
 	<-s.finish
 	S = nil
 	r := s.res
-	r.Steps = len(r.Points)
+	r.Steps = s.steps
 	r.Hash = s.hash
 	r.VTimeEnd = s.now
 	r.Threads = len(s.threads)
@@ -422,7 +423,7 @@ func (s *sched) yield(o *op) {
 // pending op, or done).
 func (s *sched) reschedule(self *Thread) {
 	for {
-		if len(s.res.Points) > s.cfg.MaxSteps || s.tseq > 4*s.cfg.MaxSteps {
+		if s.steps > s.cfg.MaxSteps || s.tseq > s.cfg.MaxSteps {
 			s.fail("livelock", "livelock", "execution exceeded the step limit (livelock or unbounded polling)")
 			s.endExecution(self)
 			s.leave(self)
@@ -442,7 +443,12 @@ func (s *sched) reschedule(self *Thread) {
 			}
 		}
 		if selfEnabled {
-			cand = append([]*Thread{self}, cand...)
+			if self.op.kind == "yield" && len(cand) > 0 {
+				// a polling loop: by default somebody else runs first (fairness)
+				cand = append(cand, self)
+			} else {
+				cand = append([]*Thread{self}, cand...)
+			}
 		}
 		timerOK := s.timers.Len() > 0 && s.timers.items[0].when <= s.cfg.Horizon
 		if len(cand) == 0 {
@@ -480,6 +486,7 @@ func (s *sched) reschedule(self *Thread) {
 }
 
 func (s *sched) switchTo(self, next *Thread) {
+	s.steps++
 	s.mix(2, next.ID, next.op.obj)
 	if s.cfg.Verbose {
 		s.tracef("T%d %s #%d", next.ID, next.op.kind, next.op.obj)
